@@ -612,7 +612,21 @@ def g_step(r, depth, in_pred):
 
 def g_ns(r, depth, in_pred=False):
     k = r.weighted([("path", 12), ("union", 2 if depth > 0 else 0), ("filter", 3 if depth > 0 else 0), ("var", 2),
-                    ("ext", 2 if depth > 0 else 0)])
+                    ("ext", 3 if depth > 0 else 0)])
+    if k == "ext" and r.chance(1, 2):
+        w = r.below(6)
+        toks = ["i1", "i2", "i3", "i4", "zz", "i1", "i2"]
+        if w == 0:
+            return T("ns", "id('%s')" % r.choice(toks))
+        if w == 1:
+            return T("ns", "id('%s')" % " ".join(r.choice(toks) for _ in range(r.range(2, 4))))
+        if w == 2:
+            return T("ns", "id({0})", g_ns(r, depth - 1, in_pred))
+        if w == 3:
+            return T("ns", "id(concat('%s', ' ', {0}))" % r.choice(toks), g_str(r, 0, in_pred))
+        if w == 4:
+            return T("ns", "id(//@k | //text())")
+        return T("ns", "id('%s  %s\t%s')" % (r.choice(toks), r.choice(toks), r.choice(toks)))
     if k == "ext":
         f = r.choice(["set:difference", "set:intersection", "set:leading", "set:trailing", "set:distinct", "x:distinct", "x:nodeset"])
         if f in ("set:distinct", "x:distinct", "x:nodeset"):
@@ -1005,6 +1019,8 @@ def gen_doc2(r, maxnodes=14):
              "123456789012345678901234", "0.30000000000000004"]
     if r.chance(1, 2):
         texts = texts + [g_numeric_string(r).replace("\t", " ") for _ in range(4)]
+    texts = texts + ["i1", "i2 i1", " i3  zz i1 ", "i2 i2", "i4 i3 i2 i1"]
+    idn = [0]
 
     def elem(parent, depth):
         name = r.choice(DOCNAMES)
@@ -1013,6 +1029,10 @@ def gen_doc2(r, maxnodes=14):
         xml = "<" + name
         if depth == 0:
             xml += ' xmlns:set="http://exslt.org/sets" xmlns:x="http://xml.apache.org/xalan"'
+        if r.chance(1, 2):
+            idn[0] += 1
+            table.append(("a", "k", "i%d" % idn[0], me))
+            xml += ' k="i%d"' % idn[0]
         used = set()
         for _ in range(r.weighted([(0, 5), (1, 3), (2, 2)])):
             an = r.choice(["p", "q", "id"])
@@ -1056,7 +1076,9 @@ def gen_doc2(r, maxnodes=14):
         return xml + "/>"
 
     xml = elem(0, 0)
-    return xml, table
+    # internal DTD subset: attribute `k` is of type ID on every element name (the document's ID map)
+    dtd = "<!DOCTYPE %s [%s]>" % (table[1][1], "".join("<!ATTLIST %s k ID #IMPLIED>" % n for n in DOCNAMES))
+    return dtd + xml, table
 
 
 # ---------------------------------------------------------------------------------------------
